@@ -201,6 +201,9 @@ def oracle(t, point, syms):
 # ------------------------------------------------------------------------------------------------
 # the real processes
 # ------------------------------------------------------------------------------------------------
+_LEAF_CACHE = [None]
+
+
 def build(ctx, t, log, syms, jac_mode, counter):
     from gemseo.core.chains.additive_chain import MDOAdditiveChain
     from gemseo.core.chains.chain import MDOChain
@@ -210,6 +213,9 @@ def build(ctx, t, log, syms, jac_mode, counter):
     kind = t[0]
     if kind == "leaf":
         d = make_discipline(ctx, t[1], t[2], t[3], log=log, jac_mode=jac_mode)
+        if _LEAF_CACHE[0] == "simple":
+            # gemseo's default cache policy: a leaf then serves its previous outputs/Jacobian when it is asked again at the same point
+            d.set_cache(Discipline.CacheType.SIMPLE)
         syms[t[1]] = d.sym
         return d
     subs = [build(ctx, s, log, syms, jac_mode, counter) for s in t_subs(t)]
@@ -338,6 +344,7 @@ def h_linearize(ctx, cfg):
     t = TEMPLATES[cfg["topo"]]
     pre = cfg["topo"] + ": "  # labels name the template so that findings can be keyed by it
     rec = _install_stubs(ctx)
+    _LEAF_CACHE[0] = cfg.get("leaf_cache")
     roots, outs = t_io(t)
     log, syms = [], {}
     proc = build(ctx, t, log, syms, cfg.get("jac_mode", "all"), [0])
@@ -474,7 +481,8 @@ def configs(tier):
         max_out = 2 if quick else None
         # single requests (every non-empty input subset x output subsets), leaf disciplines filling all / only the requested blocks
         out.append((h, dict(topo=topo, req1="choice", req2="none", max_out=max_out, jac_mode="all")))
-        out.append((h, dict(topo=topo, req1="choice", req2="none", max_out=max_out, jac_mode="requested", pre_execute=False)))
+        if topo not in KNOWN_DEFECTIVE:
+            out.append((h, dict(topo=topo, req1="choice", req2="none", max_out=max_out, jac_mode="requested", pre_execute=False)))
         out.append((h, dict(topo=topo, req1="all", req2="none")))
         if topo in KNOWN_DEFECTIVE:
             # these templates hit the recorded defects of MDOChain (known_findings.json: read-write / overwritten variables): the
@@ -488,6 +496,13 @@ def configs(tier):
                 out.append((h, dict(topo=topo, req1="choice", I1=i1, req2="add", max_out=1, fresh=True, pre_execute=False)))
         out.append((h, dict(topo=topo, req1="choice", req2="all", max_out=1 if quick else 2, pre_execute=False)))
         out.append((h, dict(topo=topo, req1="all", req2="add", same_point=True, pre_execute=False)))
+        if topo in ("additive", "additive2", "additive_all", "nested_add", "chain3", "diamond", "parallel", "nested_a"):
+            # leaves with gemseo's default SimpleCache, second request at the SAME point: a cached leaf Jacobian must not have been
+            # modified by the first request
+            for i1 in range(n_i1):
+                out.append((h, dict(topo=topo, req1="choice", I1=i1, req2="add", max_out=1, jac_mode="all", same_point=True,
+                                    pre_execute=False, leaf_cache="simple")))
+            out.append((h, dict(topo=topo, req1="choice", req2="all", max_out=1, same_point=True, pre_execute=False, leaf_cache="simple")))
     return out
 
 
